@@ -436,9 +436,46 @@ func runC20(c *eng.Ctx) {
 	if okOne {
 		call := sites[0].Call
 		inLoop := eng.LoopOf(lh.Decl.Body, call.Pos()) != nil
+		// what the helper starts: the entrypoint and the argument list it hands to executor.NewExecutor, expressed at the
+		// call site (a parameter of the helper stands for the argument of the call, a field of its receiver for that
+		// field of the receiver expression of the call)
+		var entryAt, argsAt ast.Expr
+		var entryRecvField *types.Var
+		if ef := p.FuncOf(exec); ef != nil && ef.Decl.Body != nil {
+			einfo := ef.Pkg.TypesInfo
+			esig := ef.Obj.Type().(*types.Signature)
+			atSite := func(e ast.Expr) (ast.Expr, *types.Var) {
+				e = ast.Unparen(resolveLocal(einfo, ef.Decl.Body, e))
+				if id, isId := e.(*ast.Ident); isId {
+					for i := 0; i < esig.Params().Len(); i++ {
+						if einfo.ObjectOf(id) == types.Object(esig.Params().At(i)) && i < len(call.Args) {
+							return call.Args[i], nil
+						}
+					}
+				}
+				if sel, isS := e.(*ast.SelectorExpr); isS && esig.Recv() != nil {
+					if id, isId := ast.Unparen(sel.X).(*ast.Ident); isId && einfo.ObjectOf(id) == types.Object(esig.Recv()) {
+						if fv, isF := einfo.Uses[sel.Sel].(*types.Var); isF && fv.IsField() {
+							if cs, isCS := ast.Unparen(call.Fun).(*ast.SelectorExpr); isCS {
+								return cs.X, fv
+							}
+						}
+					}
+				}
+				return nil, nil
+			}
+			for _, cl := range callsIn(einfo, ef.Decl.Body, func(o types.Object, _ *ast.CallExpr) bool {
+				return eng.IsPkgFunc(o, full("pkg/executor"), "NewExecutor")
+			}) {
+				if len(cl.Args) == 4 {
+					entryAt, entryRecvField = atSite(cl.Args[1])
+					argsAt, _ = atSite(cl.Args[2])
+				}
+			}
+		}
 		argOK := false
-		if len(call.Args) == 5 {
-			if cl, isC := ast.Unparen(call.Args[4]).(*ast.CompositeLit); isC && len(cl.Elts) == 1 {
+		if argsAt != nil {
+			if cl, isC := ast.Unparen(resolveLocal(info, lh.Decl.Body, argsAt)).(*ast.CompositeLit); isC && len(cl.Elts) == 1 {
 				if s, isS := eng.ConstStr(info, cl.Elts[0]); isS && s == "--config" {
 					argOK = true
 				}
@@ -446,14 +483,20 @@ func runC20(c *eng.Ctx) {
 		}
 		g := p.GraphOf(lh)
 		hookPath := lh.Obj.Type().(*types.Signature).Params().At(0)
-		entryOK := len(call.Args) == 5 && eng.SelObj(info, call.Args[2]) == hookPath
-		if !entryOK && len(call.Args) == 5 {
+		entryOK := entryAt != nil && entryRecvField == nil && eng.SelObj(info, entryAt) == hookPath
+		if !entryOK && entryAt != nil {
 			// hook.Path of the hook that was just made by NewHook(name, hookPath, ...): NewHook stores its second
 			// parameter in Path and nothing else writes that field
 			pathFld := p.Field(pkgHook, "Hook", "Path")
 			newHook, _ := p.Object(pkgHook, "NewHook").(*types.Func)
-			if sel, isS := ast.Unparen(call.Args[2]).(*ast.SelectorExpr); isS && pathFld != nil && newHook != nil && eng.IsField(info, sel, pathFld) {
-				mk, isC := ast.Unparen(resolveLocal(info, lh.Decl.Body, sel.X)).(*ast.CallExpr)
+			var hookExpr ast.Expr
+			if entryRecvField != nil && entryRecvField == pathFld {
+				hookExpr = entryAt // the helper reads Path of its receiver: the receiver of the call is the hook
+			} else if sel, isS := ast.Unparen(entryAt).(*ast.SelectorExpr); isS && entryRecvField == nil && pathFld != nil && eng.IsField(info, sel, pathFld) {
+				hookExpr = sel.X
+			}
+			if hookExpr != nil && pathFld != nil && newHook != nil {
+				mk, isC := ast.Unparen(resolveLocal(info, lh.Decl.Body, hookExpr)).(*ast.CallExpr)
 				stored := false
 				if nh := p.FuncOf(newHook); nh != nil && nh.Obj.Type().(*types.Signature).Params().Len() >= 2 {
 					prm2 := nh.Obj.Type().(*types.Signature).Params().At(1)
